@@ -39,6 +39,12 @@ struct SendSt {
     rst_submitted: bool,
     /// E read a frame of the peer on this stream after its latest RST_STREAM was written
     peer_frame_after_rst: bool,
+    /// handles of an accepted stream the server application has let go of (all of them gone = the library
+    /// schedules the implicit reset and frees the concurrency slot, before the RST_STREAM reaches the wire)
+    h_resp_dropped: bool,
+    h_send_created: bool,
+    h_send_dropped: bool,
+    h_recv_dropped: bool,
 }
 
 pub struct WireOut {
@@ -138,11 +144,28 @@ pub fn check_endpoint(v: &View, e: Side) -> WireOut {
         }
     };
 
+    // GOAWAY frames E wrote after it had reported a connection error it detected itself: (t, code)
+    let mut goaway_codes_after_error: Vec<(u64, u32)> = Vec::new();
     for ev in v.evs() {
         if ev.conn != v.conn {
             continue;
         }
         match &ev.k {
+            // E closes its write side of its own accord: what it had to say about the error has been said. A
+            // graceful-shutdown GOAWAY(NO_ERROR) queued earlier may precede the one with the error code; having
+            // written only NO_ERROR ones is the violation (the peer is told nothing went wrong).
+            EvK::Shutdown { dir } if *dir == ed => {
+                if let Some((te, r)) = lib_conn_error {
+                    if !goaway_codes_after_error.is_empty() && goaway_codes_after_error.iter().all(|(_, c)| *c == 0) {
+                        fail(
+                            &mut viol,
+                            "C09",
+                            "goaway-no-error-after-detected-connection-error",
+                            format!("{}: handles were failed at t={} with a locally detected connection error (code {}), but every GOAWAY written afterwards (at t={:?}) carries NO_ERROR and the endpoint then closed its write side", e.name(), te, r, goaway_codes_after_error.iter().map(|(t, _)| *t).collect::<Vec<_>>()),
+                        );
+                    }
+                }
+            }
             EvK::W { dir, idx } if *dir == pd => {
                 // the peer wrote a frame (permissive knowledge for idle rules, and obligations queue)
                 let f = v.frame(*dir, *idx);
@@ -233,9 +256,24 @@ pub fn check_endpoint(v: &View, e: Side) -> WireOut {
                     }
                 }
             }
+            EvK::Api(a) if a.side == e && !e_is_client && a.phase == Phase::Ret && a.sid != 0 && matches!(a.op, Op::DropSendResponse | Op::DropSend | Op::DropRecv) => {
+                let st = streams.entry(a.sid).or_default();
+                match a.op {
+                    Op::DropSendResponse => st.h_resp_dropped = true,
+                    Op::DropSend => st.h_send_dropped = true,
+                    _ => st.h_recv_dropped = true,
+                }
+                if st.h_resp_dropped && st.h_recv_dropped && (!st.h_send_created || st.h_send_dropped) {
+                    // every handle is gone: finished as far as the application is concerned
+                    accepted_active.remove(&a.sid);
+                }
+            }
             EvK::Api(a) if a.side == e && a.phase == Phase::Ret && a.sid != 0 && matches!(a.op, Op::SendData | Op::SendTrailers | Op::SendResponse | Op::SendReset) => {
                 if let Res::Ok = a.res {
                     let st = streams.entry(a.sid).or_default();
+                    if a.op == Op::SendResponse {
+                        st.h_send_created = true;
+                    }
                     if a.op == Op::SendReset {
                         st.rst_submitted = true;
                         accepted_active.remove(&a.sid);
@@ -442,17 +480,10 @@ pub fn check_endpoint(v: &View, e: Side) -> WireOut {
                         }
                         goaway_last = Some(*last);
                         stats.inc(&p(&format!("goaway.code{}", code)));
-                        if let Some((te, r)) = lib_conn_error {
+                        if let Some((te, _)) = lib_conn_error {
                             if t > te {
                                 stats.inc(&p("goaway_after_detected_conn_error"));
-                                if *code == 0 {
-                                    fail(
-                                        &mut viol,
-                                        "C09",
-                                        "goaway-no-error-after-detected-connection-error",
-                                        format!("{}: handles were failed at t={} with a locally detected connection error (code {}), but the GOAWAY written at t={} carries NO_ERROR", e.name(), te, r, t),
-                                    );
-                                }
+                                goaway_codes_after_error.push((t, *code));
                             }
                         }
                     }
